@@ -256,6 +256,7 @@ func genStates(c *caseCtx, n int) []state {
 		sp = append(sp, pinLines(c, 40)...)
 		sp = append(sp, queenStars(c, 10)...)
 		sp = append(sp, h1Corner(c, 30)...)
+		sp = append(sp, sliderChecks(c, 60)...)
 		for _, f := range sp {
 			ret = append(ret, mustDecode(f))
 		}
@@ -643,4 +644,160 @@ func h1Corner(c *caseCtx, n int) []string {
 		ret = append(ret, fen.Encode(pos, side, 0, 1))
 	}
 	return ret
+}
+
+// sliderChecks builds positions in which the side to move is in check from a rook, bishop or queen and
+// the king is NOT in a corner of the checking line: the square behind the king on that line is on the board,
+// so whether the king may step there depends on seeing through the king itself. Most are mates: back-rank
+// mates behind a pawn shield, two-rook / rook-and-queen ladder mates on every edge (the eight symmetries of
+// the board), and mates and one-escape near-mates found by rejection sampling (lone king plus at most two men
+// against king and two to four heavy or light pieces). Both colours; returns FENs.
+func sliderChecks(c *caseCtx, n int) []string {
+	var ret []string
+	add := func(pls []board.Placement, side board.Color) {
+		pos, err := board.NewPosition(pls, 0, 0)
+		if err != nil || pos == nil || pos.IsChecked(side.Opponent()) || !pos.IsChecked(side) {
+			return
+		}
+		ret = append(ret, fen.Encode(pos, side, 0, 1))
+	}
+	sq := func(f, r int) board.Square { return board.NewSquare(board.File(f), board.Rank(r)) }
+	// back-rank mates: black king on b8..g8 behind three pawns, white rook or queen on the rank two or more
+	// files away on either side; and the same with colours swapped
+	for kf := 1; kf <= 6; kf++ {
+		for af := 0; af < 8; af++ {
+			if af >= kf-1 && af <= kf+1 {
+				continue
+			}
+			if c.r.Intn(3) != 0 {
+				continue
+			}
+			heavy := board.Rook
+			if c.r.Intn(3) == 0 {
+				heavy = board.Queen
+			}
+			for _, side := range []board.Color{board.Black, board.White} {
+				kr, pr, okr := 7, 6, 0
+				if side == board.White {
+					kr, pr, okr = 0, 1, 7
+				}
+				pls := []board.Placement{{Square: sq(kf, kr), Color: side, Piece: board.King}, {Square: sq(af, kr), Color: side.Opponent(), Piece: heavy},
+					{Square: sq((kf+4)%8, okr), Color: side.Opponent(), Piece: board.King}}
+				for d := -1; d <= 1; d++ {
+					pls = append(pls, board.Placement{Square: sq(kf+d, pr), Color: side, Piece: board.Pawn})
+				}
+				add(pls, side)
+			}
+		}
+	}
+	// ladder mates under the eight symmetries of the board: king on the edge (not in the corner), one heavy
+	// piece checking along the edge, another sealing the next line, the attacker's king far away
+	for sym := 0; sym < 8; sym++ {
+		tr := func(f, r int) board.Square {
+			if sym&1 != 0 {
+				f = 7 - f
+			}
+			if sym&2 != 0 {
+				r = 7 - r
+			}
+			if sym&4 != 0 {
+				f, r = r, f
+			}
+			return sq(f, r)
+		}
+		for k := 0; k < 3; k++ {
+			kf := 1 + c.r.Intn(6)
+			af := (kf + 3 + c.r.Intn(3)) % 8 // checking piece, at least two files from the king
+			bf := (kf + 3 + c.r.Intn(3)) % 8 // sealing piece
+			if af == bf || af >= kf-1 && af <= kf+1 || bf >= kf-1 && bf <= kf+1 {
+				continue
+			}
+			kinds := []board.Piece{board.Rook, board.Rook, board.Queen}
+			side := board.Color(c.r.Intn(2))
+			pls := []board.Placement{{Square: tr(kf, 7), Color: side, Piece: board.King},
+				{Square: tr(af, 7), Color: side.Opponent(), Piece: kinds[c.r.Intn(3)]},
+				{Square: tr(bf, 6), Color: side.Opponent(), Piece: board.Rook},
+				{Square: tr((kf+4)%8, 0), Color: side.Opponent(), Piece: board.King}}
+			add(pls, side)
+		}
+	}
+	// rejection sampling: in check from a slider, no legal move (or exactly one, a king move)
+	for tries := 0; tries < 3000*n && len(ret) < n; tries++ {
+		var used [64]bool
+		var pls []board.Placement
+		put := func(col board.Color, pc board.Piece, s board.Square) {
+			if used[s] || (pc == board.Pawn && (s.Rank() == board.Rank1 || s.Rank() == board.Rank8)) {
+				return
+			}
+			used[s] = true
+			pls = append(pls, board.Placement{Square: s, Color: col, Piece: pc})
+		}
+		side := board.Color(c.r.Intn(2))
+		ksq := board.Square(c.r.Intn(64))
+		put(side, board.King, ksq)
+		for len(pls) < 2 {
+			put(side.Opponent(), board.King, board.Square(c.r.Intn(64)))
+		}
+		theirs := []board.Piece{board.Queen, board.Rook, board.Rook, board.Bishop, board.Bishop, board.Knight}
+		for k := 0; k < 2+c.r.Intn(3); k++ {
+			put(side.Opponent(), theirs[c.r.Intn(len(theirs))], board.Square(c.r.Intn(64)))
+		}
+		own := []board.Piece{board.Pawn, board.Pawn, board.Knight, board.Bishop, board.Rook}
+		for k := 0; k < c.r.Intn(3); k++ {
+			put(side, own[c.r.Intn(len(own))], board.Square(c.r.Intn(64)))
+		}
+		pos, err := board.NewPosition(pls, 0, 0)
+		if err != nil || pos == nil || pos.IsChecked(side.Opponent()) || !pos.IsChecked(side) {
+			continue
+		}
+		// a slider gives check along a line that continues behind the king
+		behind := false
+		for _, pl := range pls {
+			if pl.Color == side || (pl.Piece != board.Queen && pl.Piece != board.Rook && pl.Piece != board.Bishop) {
+				continue
+			}
+			df, dr := int(ksq.File())-int(pl.Square.File()), int(ksq.Rank())-int(pl.Square.Rank())
+			straight, diag := (df == 0) != (dr == 0), df != 0 && (df == dr || df == -dr)
+			if !(straight && pl.Piece != board.Bishop) && !(diag && pl.Piece != board.Rook) {
+				continue
+			}
+			sf, sr := sign(df), sign(dr)
+			clear := true
+			for f, r := int(pl.Square.File())+sf, int(pl.Square.Rank())+sr; f != int(ksq.File()) || r != int(ksq.Rank()); f, r = f+sf, r+sr {
+				if used[sq(f, r)] {
+					clear = false
+				}
+			}
+			bf, br := int(ksq.File())+sf, int(ksq.Rank())+sr
+			if clear && bf >= 0 && bf < 8 && br >= 0 && br < 8 && !used[sq(bf, br)] {
+				behind = true
+			}
+		}
+		if !behind {
+			continue
+		}
+		ms := legalMoves(pos, side)
+		if len(ms) > 1 || (len(ms) == 1 && ms[0].Piece != board.King) {
+			continue
+		}
+		if len(ms) == 1 && c.r.Intn(3) != 0 {
+			continue // mostly mates
+		}
+		ret = append(ret, fen.Encode(pos, side, 0, 1))
+	}
+	if len(ret) > n {
+		c.r.Shuffle(len(ret), func(i, j int) { ret[i], ret[j] = ret[j], ret[i] })
+		ret = ret[:n]
+	}
+	return ret
+}
+
+func sign(x int) int {
+	switch {
+	case x < 0:
+		return -1
+	case x > 0:
+		return 1
+	}
+	return 0
 }
